@@ -22,6 +22,7 @@ from .builtin.expressions import FilteredExpression
 from .builtin.expressions import TernaryFilteredExpression
 from .builtin.tags.comment_tag import CommentNode
 from .context import RenderContext
+from .exceptions import LiquidTypeError
 from .token import TOKEN_TAG
 from .token import Token
 
@@ -69,6 +70,22 @@ class Translations(Protocol):
 
     def npgettext(self, context: str, singular: str, plural: str, n: int) -> str:
         """Do plural-forms context and message lookup."""
+
+
+def check_translations(obj: object, name: str) -> Translations:
+    """Return _obj_ if it looks like a message catalog, raise a Liquid error otherwise.
+
+    _name_ is the render context variable _obj_ was resolved from. Render data can
+    put anything there.
+    """
+    for method in ("gettext", "ngettext", "pgettext", "npgettext"):
+        if not callable(getattr(obj, method, None)):
+            raise LiquidTypeError(
+                f"expected a translations object in '{name}', "
+                f"found {type(obj).__name__}",
+                token=None,
+            )
+    return obj  # type: ignore[return-value]
 
 
 MESSAGES = Union[
